@@ -283,6 +283,28 @@ def run(R):
                 R.check(term_contains(a, lambda x: x and x[0] == 'variant' and x[2] == 'Trailer'), 'C17.R2', 'messages-before-trailers', site(pf, bb), 'copy_to_bytes(%s): bytes ahead of the trailers frame' % show(a)[:80])
 
     # ---------------------------------------------------------------- R3 wrapping
+    with R.guard('C17.R2', 'parked-trailers'):
+        # trailers parked in self.trailers (because message bytes are handed out first) must still be reachable on the next poll:
+        # the path that parks them leaves `direction` alone, so the decode arm is entered again and flushes them
+        pf = web.body(re.compile(r'call::GrpcWebCall<B> as http_body::Body>::poll_frame$'))
+        rows = mirlib.path_rows(pf, limit=100000)
+        npark = 0
+        for cons, path in rows:
+            parks = [bb_ for bb_ in path if pf.term(bb_)['k'] == 'call' and pf.term(bb_).get('name') in ('replace', 'insert', 'get_or_insert') and mentions_field(pf.origin(pf.term(bb_)['args'][0]), 'trailers')]
+            takes = [bb_ for bb_ in path if pf.term(bb_)['k'] == 'call' and pf.term(bb_).get('name') == 'take' and mentions_field(pf.origin(pf.term(bb_)['args'][0]), 'trailers')]
+            val = pf.ret_on_path(path)
+            delivered = has_fn(val, 'trailers', 'Frame') and bool(takes)
+            dw = pf.writes_on_path(path, lambda p_: mirlib.place_fields(p_)[-1:] == ['direction'])
+            dcalls = [bb_ for bb_ in path if pf.term(bb_)['k'] == 'call' and mirlib.place_fields(pf.term(bb_)['dest'])[-1:] == ['direction']]
+            if parks and not delivered:
+                npark += 1
+                R.check(not dw and not dcalls, 'C17.R2', 'parked-trailers-stay-reachable', site(pf, (dw[0][0] if dw else path[-1])),
+                        'a path that stores the trailers and returns something else changes `direction` (%d write(s)): the next poll would not reach the code that flushes them' % (len(dw) + len(dcalls)))
+        R.floor('C17.R2', 'paths that park the trailers', npark, 1)
+        # and direction is only ever set by the constructors
+        dws = [(b_, bb_, i_) for b_ in web.bodies if b_.kind != 'promoted' and 'GrpcWebCall' in b_.path for bb_, i_, st_ in mirlib.assignments(b_, lambda st_: mirlib.place_fields(st_['p'])[-1:] == ['direction'])]
+        R.note('assignments to GrpcWebCall.direction outside aggregate construction: %d' % len(dws))
+
     R.describe('C17.R3', 'GrpcWebClientService::call sets content-type application/grpc-web and wraps request/response bodies with client_request/client_response')
     with R.guard('C17.R3'):
         cb = web.body(re.compile(r'client::GrpcWebClientService<S> as tower_service::Service<http::Request<B1>>>::call$'))
